@@ -14,15 +14,21 @@ CANARY = True
 RULE = ("cases = generated dyadic specifications (bias: mixed filter-restricted/unrestricted discrete choices, 0-2 continuous "
         "choice grids of unequal sizes) x parameters x batches of 1/6/7/11 agents on and off the grid, solved or random value "
         "arrays, jit on; distinct = structural signature; evaluations = agent-periods checked against the specification")
-ASSUMPTIONS = ["agent-periods whose objective is undefined in the model (transition into an excluded state, -inf continuation) are skipped",
+ASSUMPTIONS = ["stream `jitlog` (utilities built from log / sqrt, two continuous choices, JIT on): numpy oracle from lcm's own value arrays, tolerance 1e-9 relative - searches what the rational model cannot exhibit (finding F6b)",
+               "agent-periods whose objective is undefined in the model (transition into an excluded state, -inf continuation) are skipped",
                "dyadic inputs: exact comparison; ties accepted (any maximiser)"]
 
 
 def cases(seed, tier):
-    return sim_cases(seed, tier)
+    n_jl = 12 if tier == "quick" else 150
+    return sim_cases(seed, tier) + [{"kind": "jitlog", "seed": seed * 1_000_003 + 20201 + i} for i in range(n_jl)]
 
 
 def run_case(case):
+    if case.get("kind") == "jitlog":
+        from props.jitlog import run_jitlog
+
+        return run_jitlog(case)
     info = run_panel(case)
     out = base_out(info, case)
     if "skip" in info:
